@@ -100,12 +100,15 @@ class SpecEnv:
         self.ghost = ghost or {}
         self.fx = fx
         self.params = set()   # parameter names of the contract being evaluated (they win over the keywords result/exc)
+        self.callsite = False  # True when a CALLEE's contract is evaluated at a call site: the callee's path ghosts
+        #                        (callcount, call_before, last_result, call_arg) are unknown to the caller
         self.heap = cur       # the heap expressions are currently evaluated in
 
     def with_heap(self, h):
         e = SpecEnv(self.eng, self.names, self.cur, self.old, self.pre, self.result, self.exc, self.ghost, self.fx)
         e.heap = h
         e.params = self.params
+        e.callsite = self.callsite
         return e
 
     def bind(self, extra):
@@ -114,6 +117,7 @@ class SpecEnv:
         e = SpecEnv(self.eng, n, self.cur, self.old, self.pre, self.result, self.exc, self.ghost, self.fx)
         e.heap = self.heap
         e.params = self.params
+        e.callsite = self.callsite
         return e
 
     # -------------------------------------------------------------
@@ -314,7 +318,15 @@ class SpecEnv:
         if f == "callcount":
             # number of calls of the named contract on this path (syntactic path ghost; callee-side only)
             n = self._str(a[0])
+            if self.callsite:
+                return z3.Const(fresh_name("callcount?"), z3.IntSort())      # unknown to the caller
             return z3.IntVal(int(self.ghost.get("$calls:" + n, 0)))
+        if self.callsite and f in ("call_arg", "call_star", "call_dstar", "call_kw", "last_result"):
+            return z3.Const(fresh_name(f + "?"), V)
+        if self.callsite and f == "call_nargs":
+            return z3.Const(fresh_name("nargs?"), z3.IntSort())
+        if self.callsite and f == "call_before":
+            return z3.BoolVal(True)
         if f in ("call_arg", "call_star", "call_dstar", "call_nargs", "call_kw"):
             ca = self.ghost.get("$callargs")
             if ca is None:
